@@ -120,7 +120,9 @@ def build_graph(case, graph_cls=None):
             G.edges[u, v][NN.MOTIF_IDS] = mid
     for v in range(case["N"]):
         G.add_node(v)
-        G.nodes[v][NN.JOINT_DEGREE] = jds[v]
+        # annotations are tuples as the generators write them, or lists (a network converted from a joint degree
+        # sequence given as lists)
+        G.nodes[v][NN.JOINT_DEGREE] = list(jds[v]) if case.get("jd_type") == "list" else jds[v]
     return G, jds
 
 
